@@ -8,6 +8,16 @@
  *   calls:  one `read` per entry with a buffer of <buf> bytes, after <avail> more bytes of the framed
  *           stream have become readable on the socket
  * -> `res=ok reads=ok:<hex>|wouldblock|err,...`
+ *
+ * The write adapter, driven the way the threaded client's connected loop drives its stream:
+ * `ws.write chunks=<hex>,<hex>,... wplan=a<n>|b|e,...`
+ *   chunks: what the engine produces, one service call each; every chunk is offered until the stream has taken all
+ *           of it (a would-block result means "offer the same remainder again"), then the stream is flushed until
+ *           the flush succeeds (at most 64 attempts per step)
+ *   wplan:  how the socket takes the successive `write` calls made on it: accept at most <n> bytes, would block, fail
+ * -> `res=ok calls=w:<n>|w:b|w:e|f:ok|f:b|f:e,... msgs=<count> payload=<hex>`
+ *   calls: every call made on the adapter and its result; msgs/payload: what a server decodes from the bytes the
+ *   socket accepted - the binary messages and the concatenation of their payloads
  */
 
 use std::io::{Read, Write};
@@ -17,7 +27,16 @@ use super::text::*;
 struct ScriptedSocket {
     data: Arc<Mutex<(Vec<u8>, usize, usize)>>,   // (framed stream, read position, readable limit)
     eof: bool,                                   // the stream ends with EOF rather than staying open
+    out: Arc<Mutex<ScriptedOut>>,                // what the client wrote, and how the socket takes writes
 }
+
+#[derive(Default)]
+struct ScriptedOut {
+    plan: std::collections::VecDeque<WriteStep>, // per `write` call on the socket; exhausted: everything is accepted
+    written: Vec<u8>,
+}
+
+enum WriteStep { Accept(usize), Block, Error }
 
 impl Read for ScriptedSocket {
     fn read(&mut self, buf: &mut [u8]) -> std::io::Result<usize> {
@@ -37,7 +56,19 @@ impl Read for ScriptedSocket {
 }
 
 impl Write for ScriptedSocket {
-    fn write(&mut self, buf: &[u8]) -> std::io::Result<usize> { Ok(buf.len()) }
+    fn write(&mut self, buf: &[u8]) -> std::io::Result<usize> {
+        let mut out = self.out.lock().unwrap();
+        match out.plan.pop_front() {
+            None => { out.written.extend_from_slice(buf); Ok(buf.len()) }
+            Some(WriteStep::Accept(n)) => {
+                let k = usize::min(usize::max(n, 1), buf.len());
+                out.written.extend_from_slice(&buf[..k]);
+                Ok(k)
+            }
+            Some(WriteStep::Block) => Err(std::io::Error::from(std::io::ErrorKind::WouldBlock)),
+            Some(WriteStep::Error) => Err(std::io::Error::from(std::io::ErrorKind::BrokenPipe)),
+        }
+    }
     fn flush(&mut self) -> std::io::Result<()> { Ok(()) }
 }
 
@@ -74,7 +105,7 @@ pub(crate) fn cmd_ws_read(head: &str) -> Result<String, String> {
         }
     }
     let shared = Arc::new(Mutex::new((stream, 0usize, 0usize)));
-    let mut wrapper = crate::client::synchronous::threaded::verif_wrap_websocket(ScriptedSocket { data: shared.clone(), eof });
+    let mut wrapper = crate::client::synchronous::threaded::verif_wrap_websocket(ScriptedSocket { data: shared.clone(), eof, out: Default::default() });
     let mut outs = Vec::new();
     for call in get(&kv, "calls").unwrap_or("").split(',').filter(|s| !s.is_empty()) {
         let (buf_len, avail) = call.split_once('@').ok_or("bad call")?;
@@ -93,4 +124,61 @@ pub(crate) fn cmd_ws_read(head: &str) -> Result<String, String> {
         }
     }
     Ok(format!("res=ok reads={}", outs.join(",")))
+}
+
+pub(crate) fn cmd_ws_write(head: &str) -> Result<String, String> {
+    let (_, kv) = split_kv(head);
+    let mut chunks = Vec::new();
+    for c in get(&kv, "chunks").unwrap_or("").split(',').filter(|s| !s.is_empty()) {
+        chunks.push(unhex(c)?);
+    }
+    let mut plan = std::collections::VecDeque::new();
+    for t in get(&kv, "wplan").unwrap_or("").split(',').filter(|s| !s.is_empty()) {
+        if t == "b" { plan.push_back(WriteStep::Block); }
+        else if t == "e" { plan.push_back(WriteStep::Error); }
+        else if let Some(n) = t.strip_prefix('a') { plan.push_back(WriteStep::Accept(n.parse().map_err(|_| "bad wplan")?)); }
+        else { return Err("bad wplan".to_string()); }
+    }
+    let out = Arc::new(Mutex::new(ScriptedOut { plan, written: Vec::new() }));
+    let socket = ScriptedSocket { data: Arc::new(Mutex::new((Vec::new(), 0, 0))), eof: false, out: out.clone() };
+    let mut wrapper = crate::client::synchronous::threaded::verif_wrap_websocket(socket);
+    let mut calls = Vec::new();
+    let mut failed = false;
+    for chunk in &chunks {
+        let mut offered: &[u8] = chunk;
+        let mut attempts = 0;
+        while !offered.is_empty() && !failed && attempts < 64 {
+            attempts += 1;
+            match wrapper.write(offered) {
+                Ok(0) => { calls.push("w:0".to_string()); failed = true; }
+                Ok(n) if n <= offered.len() => { calls.push(format!("w:{}", n)); offered = &offered[n..]; }
+                Ok(n) => { calls.push(format!("w:overrun{}", n)); failed = true; }
+                Err(e) if e.kind() == std::io::ErrorKind::WouldBlock || e.kind() == std::io::ErrorKind::Interrupted => calls.push("w:b".to_string()),
+                Err(_) => { calls.push("w:e".to_string()); failed = true; }
+            }
+        }
+        attempts = 0;
+        while !failed && attempts < 64 {
+            attempts += 1;
+            match wrapper.flush() {
+                Ok(()) => { calls.push("f:ok".to_string()); break; }
+                Err(e) if e.kind() == std::io::ErrorKind::WouldBlock || e.kind() == std::io::ErrorKind::Interrupted => calls.push("f:b".to_string()),
+                Err(_) => { calls.push("f:e".to_string()); failed = true; }
+            }
+        }
+        if failed { break; }
+    }
+    drop(wrapper);
+    // the server's view: decode the accepted bytes as websocket frames from a client
+    let raw = out.lock().unwrap().written.clone();
+    let mut server = tungstenite::protocol::WebSocket::from_raw_socket(std::io::Cursor::new(raw), tungstenite::protocol::Role::Server, None);
+    let mut payload = Vec::new();
+    let mut msgs = 0;
+    while let Ok(message) = server.read() {
+        if let tungstenite::protocol::Message::Binary(data) = message {
+            msgs += 1;
+            payload.extend_from_slice(&data);
+        }
+    }
+    Ok(format!("res=ok calls={} msgs={} payload={}", calls.join(","), msgs, hex(&payload)))
 }
